@@ -477,6 +477,10 @@ impl<'a> Runtime<'a> {
             }
             Stmt::Loop { cond, body, .. } => {
                 loop {
+                    // Taken before the condition, so that its temporaries go with the iteration too.
+                    let frame_offset =
+                        if self.has_frame_arena() { Some(self.frame.offset()) } else { None };
+
                     let val = self.eval_expr(cond)?;
                     let should_continue = match val {
                         Value::Bool(b) => b,
@@ -488,9 +492,6 @@ impl<'a> Runtime<'a> {
                     if !should_continue {
                         break;
                     }
-
-                    let frame_offset =
-                        if self.has_frame_arena() { Some(self.frame.offset()) } else { None };
 
                     match self.exec_block_with_flow(body)? {
                         ExecFlow::Break => break,
